@@ -57,6 +57,41 @@ func pgpKeyWithIdentities(r *Rng, n int, when time.Time) []byte {
 	return out.Bytes()
 }
 
+// pgpKeyExpiring: a key whose identity self-signature and subkey binding carry a key lifetime, created
+// shortly before a UTC midnight so that the expiry date depends on the zone it is formatted in.
+func pgpKeyExpiring(r *Rng, when time.Time, lifetime uint32) []byte {
+	cfg := &packet.Config{RSABits: 1024, Rand: r, Time: func() time.Time { return when }}
+	e, err := openpgp.NewEntity("Expiring Example", "", "exp@example.org", cfg)
+	if err != nil {
+		fmt.Fprintln(os.Stderr, "NewEntity:", err)
+		os.Exit(1)
+	}
+	for _, id := range e.Identities {
+		id.SelfSignature.KeyLifetimeSecs = &lifetime
+		if err := id.SelfSignature.SignUserId(id.UserId.Id, e.PrimaryKey, e.PrivateKey, cfg); err != nil {
+			fmt.Fprintln(os.Stderr, "SignUserId:", err)
+			os.Exit(1)
+		}
+	}
+	for i := range e.Subkeys {
+		e.Subkeys[i].Sig.KeyLifetimeSecs = &lifetime
+		if err := e.Subkeys[i].Sig.SignKey(e.Subkeys[i].PublicKey, e.PrivateKey, cfg); err != nil {
+			fmt.Fprintln(os.Stderr, "SignKey:", err)
+			os.Exit(1)
+		}
+	}
+	var raw bytes.Buffer
+	if err := e.Serialize(&raw); err != nil {
+		fmt.Fprintln(os.Stderr, "Serialize:", err)
+		os.Exit(1)
+	}
+	var out bytes.Buffer
+	w, _ := armor.Encode(&out, "PGP PUBLIC KEY BLOCK", nil)
+	w.Write(raw.Bytes())
+	w.Close()
+	return out.Bytes()
+}
+
 func certWith(r *Rng, ku x509.KeyUsage, ekus []x509.ExtKeyUsage, dns []string, ips []net.IP, when time.Time) []byte {
 	// ed25519: key generation and signing are deterministic functions of the random source,
 	// so the case stream replays exactly from its seed (crypto/ecdsa and crypto/rsa are not)
@@ -88,6 +123,7 @@ func genC04(c *Ctx) {
 		{"jceks", "keystore-jce.jks", fixture("java/keystore-jce.jks")},
 		{"pgp-3ids", "k3.asc", embedded("pgp/ids3.asc")},
 		{"pgp-4ids", "k4.asc", embedded("pgp/ids4.asc")},
+		{"pgp-expiring-subkey", "kx.asc", embedded("pgp/expiring.asc")},
 		{"pem-bundle", "chain.pem", fixture("java/chain.pem")},
 		{"jwt", "t.jwt", jwtWith(map[string]any{"sub": "s", "iss": "i", "aud": "a", "jti": "j", "exp": "1700000000", "iat": "1700000000", "nbf": "1700000000"},
 			map[string]any{"alg": "ES256", "typ": "JWT", "kid": "k", "x5u": "u", "jku": "j"})},
